@@ -506,7 +506,7 @@ class Obl:
             cb += ['--object-bits', str(s.get('object_bits', 12))]
         cb.append(b)
         self.res['cmd'] = ' '.join(gi[:-2] + ['&&'] if use_dfcc else []) + ' ' + ' '.join(cb[:-1])
-        timeout = int(os.environ.get('VF_TIMEOUT', 0)) or s.get('timeout', 300) * (3 if self.tier == 'thorough' else 1)
+        timeout = int(os.environ.get('VF_TIMEOUT', 0)) or s.get('timeout', 900) * (3 if self.tier == 'thorough' else 1)
         # back ends are tried in order; a back end that errors out or times out hands over to the next
         backends = s.get('backends', ['sat'])
         cb_base = cb
